@@ -11,7 +11,7 @@ RULE = ('(a) AdbMessage(cmd, arg0, arg1, data).pack() for all 7 commands x arg0,
         'edges) x payload shapes {empty, every single byte value, 0xff runs around 256, 4096, 65536, 1 MiB of 0xff, seeded random; bytes and bytearray}, decoded by an '
         'independent parser (int.from_bytes, literal command words, byte sum) and by the library\'s own unpack; thorough adds a 17 MiB payload whose byte sum exceeds 2^32; '
         '(b) the complete outgoing byte stream of whole sessions (all 8 operations, auth with signatures and public key, failing pushes/pulls) with the local id counter '
-        'started at 0, 2^31-2 and 2^32-3 and remote ids at the 32-bit extremes, fed through the strict parser; non-trivial = payload non-empty or session; '
+        'started at 0, 2^31-2 and 2^32-3 and remote ids at the 32-bit extremes, also over transports that accept only 1..4095 bytes per write, fed through the strict parser; non-trivial = payload non-empty or session; '
         'distinct = distinct (cmd, arg0, arg1, payload shape) / session parameters' % len(B))
 ASSUMPTIONS = ['frames.py (independent codec) implements AOSP protocol.txt correctly', 'the strict parser of adbsim also runs on every execution of every other check']
 
@@ -75,6 +75,8 @@ def run_payload(params, ch):
 
 def run_session(params, ch):
     cfg = scen.ops_cfg(params['chunking'], params['maxdata'], 'after-ack', 'extreme')
+    if params.get('cap'):
+        cfg['wcap_global'] = params['cap']
     if params.get('fail'):
         cfg['fail'] = params['fail']
     s = Session(ch, cfg, twin=params['twin'])
@@ -110,6 +112,8 @@ def parts(tier):
                     for ci, con in enumerate(auths):
                         for fail in (None, {'op': 'send', 'when': 'done', 'reason': b'nope'}, {'op': 'recv', 'when': 'start', 'reason': b'nope'}):
                             sc.append({'twin': twin, 'start': start, 'maxdata': md, 'chunking': chk, 'connect': con, 'fail': fail, 'ops': list(scen.OPS8), 'push_size': 9000})
+    sc += [{'twin': t, 'start': 0, 'maxdata': 4096, 'chunking': 'two', 'connect': auths[1], 'fail': None, 'ops': list(scen.OPS8), 'push_size': 9000, 'cap': c}
+           for t in ('sync', 'async') for c in (1, 5, 7, 23, 24, 25, 100, 4095)]
     out.append(Part('sessions', sc, run_session, {'dev-order': None}, what='whole sessions through the strict parser, id counter at the wrap, remote ids at 32-bit extremes',
                     bound='%d sessions' % len(sc)))
     return out
